@@ -42,6 +42,9 @@ TRUSTED = [
     'insertion order), float arithmetic of evaluated values (compared within 1e-9 relative)',
 ]
 ASSUMPTIONS = ['callers do not mutate the collections they are handed (no consumer in mitxgraders does)',
+               'whether the parsing engine gives up on a string with a non-parse exception (RecursionError on deep nesting) is a function '
+               'of the string (the oracle `engine`; recorded per run from freshly constructed parsers; generated inputs nest either '
+               '<= ~15 or >= 300 levels, never near the interpreter-dependent threshold)',
                'single-threaded use of the shared parser',
                'names_exact is stated for strings whose token stream (Model/Lexer.v) is the rendering of a derivation; the hypothesis '
                'is decidable and is checked in Coq for every generated case; C10_reported_names_exact covers every accepted string']
@@ -182,6 +185,8 @@ def exc_obs(e):
     """exception -> ('perr', 'unbal', kind, quoted) | ('perr', 'unparse', quoted) | ('dims',) | ('err', class) | ('other', text)"""
     cx = impl()['cx']
     m = str(e)
+    if isinstance(e, RecursionError):
+        return ('perr', 'engine')
     if isinstance(e, cx.UnbalancedBrackets):
         q = quoted_of(e)
         return ('perr', 'unbal', bracket_kind(m), q) if q is not None else ('other', 'UnbalancedBrackets: ' + m)
@@ -211,6 +216,14 @@ NFILES = [8]             # case files per stage (16 on the thorough tier)
 PATIENCE = [20]          # seconds allowed per call; a sequence that times out is re-run once with much more
 
 
+def exc_outcome(e):
+    """what the fresh-vs-shared oracle compares of an exception: class and message -- except for the interpreter's own
+    RecursionError, whose wording depends on where the stack ran out, not on the library"""
+    if isinstance(e, RecursionError):
+        return ('exc', 'RecursionError', '')
+    return ('exc', type(e).__name__, str(e))
+
+
 def do_call(call, handed):
     """call = (kind, s, max_dim).  Returns (obs for Coq, outcome for the fresh-vs-shared oracle)."""
     I = impl()
@@ -227,7 +240,7 @@ def do_call(call, handed):
             handed.append((r, nm))
             return ('tree', sx, nm), ('tree', sx, nm)
         if st == 'exc':
-            return exc_obs(r), ('exc', type(r).__name__, str(r))
+            return exc_obs(r), exc_outcome(r)
         return ('other', 'timeout'), ('timeout',)
     st, r = core.guarded(ex.evaluator, s, VARS, FUNCS, SUFS, max_array_dim=md, seconds=PATIENCE[0])
     if st == 'ret':
@@ -243,7 +256,7 @@ def do_call(call, handed):
         vo = val_obs(v)
         return ('val', vo, nm, dim), ('val', repr(v), nm, dim)
     if st == 'exc':
-        return exc_obs(r), ('exc', type(r).__name__, str(r))
+        return exc_obs(r), exc_outcome(r)
     return ('other', 'timeout'), ('timeout',)
 
 
@@ -339,6 +352,10 @@ def drop_unobserved(seqs, results, stats):
 # =================================================================================================
 # the alphabet of the exhaustive histories
 # =================================================================================================
+NEST = 400       # bracket levels no recursion limit in use survives (pyparsing recurses several frames per level)
+DEEP = 'leak + 2k*' + '(' * NEST + '1' + ')' * NEST
+DEEP_FUN = 'x + 3%*' + 'f(' * NEST + 'y' + ')' * NEST
+DEEP_ARR = "x'*[y_1, 2e, " + '[' * NEST + 'f(x)' + ']' * NEST + ']'
 ALPHABET = [
     'x',                # a cached name
     'x+y',
@@ -352,8 +369,9 @@ ALPHABET = [
     "x'^-y_1",          # prime, subscript, signed exponent
     '2%%#',             # a suffix fires, then a character the grammar rejects
     'g(a_{1},1e1e)',    # tensor index name only inside arguments, suffix e after an exponent
+    DEEP,               # balanced, but nested too deeply for the engine: RecursionError escapes, after a name and a suffix fired
 ]
-EXTRA_CALLS = [('eval', None, None), ('eval', '  \t ', None), ('eval', '[y,2e]', 0), ('eval', ' x + y ', 0),
+EXTRA_CALLS = [('parse', DEEP_FUN, None), ('eval', DEEP_ARR, None), ('eval', None, None), ('eval', '  \t ', None), ('eval', '[y,2e]', 0), ('eval', ' x + y ', 0),
                ('eval', 'x y', None), ('parse', 'x y', None)]
 
 
@@ -380,6 +398,7 @@ Definition perr_eqb (a b : perr) : bool :=
   match a, b with
   | EUnbal e k, EUnbal e' k' => berr_eqb e e' && str_eqb k k'
   | EUnparse q, EUnparse q' => str_eqb q q'
+  | EEngine, EEngine => true
   | _, _ => false
   end.
 Definition everr_class (a b : everr) : bool :=
@@ -436,7 +455,7 @@ Fixpoint run_hist (st : pstate) (h : list (nat * nat * nat)) (declined : bool) :
   | (c, v, s) :: r =>
       match nth_error calls c, nth_error views v, nth_error states s with
       | Some o, Some iv, Some is_ =>
-          let (st', mv) := step junk0 faithful st o in
+          let (st', mv) := step junk0 engine0 faithful st o in
           let a := view_agree mv iv in
           if (a =? 1) then 1
           else if state_agree st' is_ then run_hist st' r (declined || (a =? 3)) else 2
@@ -465,6 +484,8 @@ def view_term(o):
     if k == 'tree':
         return '(ITree %s %s)' % (sexp_term(o[1]), namesl(*o[2]))
     if k == 'perr':
+        if o[1] == 'engine':
+            return '(IPErr EEngine)'
         if o[1] == 'unbal':
             return '(IPErr (EUnbal %s %s))' % (o[2], strl(o[3]))
         return '(IPErr (EUnparse %s))' % strl(o[2])
@@ -507,7 +528,16 @@ def eval_histories(tag, seqs, results, shard, on_codes):
         for sq, (out, _chg) in zip(seqs[k:k + shard], results[k:k + shard]):
             steps = ['(%d%%nat, %d%%nat, %d%%nat)' % (calls.id(c), views.id(o[0]), states.id(o[2])) for c, o in zip(sq, out)]
             cases.append('[' + '; '.join(steps) + ']')
+        keys = []
+        for c in calls.items:
+            if fresh_outcome(c)[:2] == ('exc', 'RecursionError') and c[1] is not None:
+                k0 = (c[1].strip() if c[0] == 'eval' else c[1]).replace(' ', '')
+                if k0 not in keys:
+                    keys.append(k0)
         text = (HEADER + ENV_COQ +
+                '(* recorded oracle: the space-free strings on which the engine gave up (RecursionError) on a fresh parser *)\n'
+                'Definition engine_keys : list str := [ %s ].\n' % '; '.join(strl(k0) for k0 in keys) +
+                'Definition engine0 (k : str) : bool := existsb (str_eqb k) engine_keys.\n'
                 'Definition calls : list op :=\n  [ %s ].\n' % '\n  ; '.join(call_term(c) for c in calls.items) +
                 'Definition views : list iview :=\n  [ %s ].\n' % '\n  ; '.join(view_term(v) for v in views.items) +
                 'Definition states : list istate :=\n  [ %s ].\n' % '\n  ; '.join(state_term(s) for s in states.items) +
@@ -550,7 +580,7 @@ DEFER = Deferred()
 # histories: generation, oracle, correspondence
 # =================================================================================================
 def show_call(c):
-    return '%s(%r%s)' % ('parse' if c[0] == 'parse' else 'evaluator', c[1], '' if c[2] is None else ', max_array_dim=%d' % c[2])
+    return '%s(%r%s)' % ('parse' if c[0] == 'parse' else 'evaluator', c[1] if c[1] is None or len(c[1]) < 120 else c[1][:40] + '...' + c[1][-8:], '' if c[2] is None else ', max_array_dim=%d' % c[2])
 
 
 def check_histories(res, seqs, results, stats):
@@ -984,7 +1014,7 @@ Definition names_case (c : str * expr * sexp * names) : Z :=
       else match check_brackets k, lex k with
            | None, Some ts =>
                if negb (toks_eqb ts (render e)) then 1
-               else match spec_parse s with
+               else match spec_parse (fun _ => false) s with
                     | VTree t l => if negb (sexp_eqb (to_sexp t) x && sexp_eqb (to_sexp (flatten e)) x) then 2
                                    else if names_same l nm && names_same (enames e) nm && names_same (scan_names ts) nm then 0 else 3
                     | VErr _ => 2
@@ -1052,6 +1082,12 @@ def random_histories(ctx, res, rng, stats, rendered):
     seqs = []
     for _ in range(n):
         pool = [rng.choice(base) for _ in range(rng.randint(2, 5))]
+        if rng.random() < 0.12:
+            # an input on which the engine gives up, after a name, a suffix or a function head has fired
+            depth = rng.randint(300, 500)
+            op, cl = rng.choice([('(', ')'), ('[', ']'), ('g(', ')')])
+            pool.append('%s%s%s%s%s%s' % (gen_name(rng), rng.choice(['+', '*', '-']), rng.choice(['2k', '3%', '1e1e', 'f(x)']),
+                                          rng.choice(['*', '+', '^']), op * depth + rng.choice(['1', 'y', '2e']), cl * depth))
         pool += [mutate(rng, rng.choice(pool)) for _ in range(rng.randint(1, 3))]
         pool += [p.replace(' ', '') if rng.random() < 0.5 else ' ' + p.replace('+', ' + ') for p in pool[:2]]
         sq = []
@@ -1181,7 +1217,7 @@ def run(ctx):
                              'all 12^3 string triples with a drawn parse/evaluate pattern') +
                             ('; all 12^4 string quadruples with two drawn patterns each' if ctx['tier'] == 'thorough' else ''),
         'sequences_not_observed_within_300s': stats.get('sequences_not_observed_within_300s', 0),
-        'alphabet': ALPHABET, 'calls_in_alphabet': len(alphabet_calls()) + len(EXTRA_CALLS),
+        'alphabet': [a if len(a) < 60 else a[:14] + '...(%d levels)...' % NEST + a[-4:] for a in ALPHABET], 'calls_in_alphabet': len(alphabet_calls()) + len(EXTRA_CALLS),
         'random_sequences': stats.get('random_sequences'), 'random_calls': stats.get('random_calls'),
         'outcome_kinds': dict(stats['outcomes']),
         'names_cases': stats.get('names_cases'), 'names_with_a_name_in_two_roles': stats['names_role_overlap'],
@@ -1256,7 +1292,8 @@ LEVEL_TEXT = ('Theorems about the executable model, for token streams, derivatio
               'call, so the outcome of parse/evaluate after any history of valid and malformed calls equals the outcome on a fresh '
               'parser, objects handed out earlier never change, and the evaluating call coincides with C03\'s evaluator.')
 LEVEL_NOTE = ('The model replaces pyparsing by a lexer + PEG with explicit callbacks; which callbacks pyparsing really fires on failing '
-              'input is a parameter (junk) the theorems quantify over. Tie by differential correspondence of every call of every '
+              'input (junk) and on which inputs the engine itself gives up with a non-parse exception (engine) are parameters the '
+              'theorems quantify over. Tie by differential correspondence of every call of every '
               'history (outcome, cache, scratch) and of name sets on generated derivations; no axioms.')
 TECHNIQUE = ('Coq proof (state-machine invariant with a reference heap, induction over histories; level-by-level "stop" invariant for '
              'the callback parser; permutation reasoning) + vm_compute trace correspondence + fresh-vs-shared oracle')
